@@ -965,6 +965,12 @@ pub struct C16Plan {
     /// stopped answering ours: a Ping from the peer is not a Pong
     #[serde(default)]
     pub peer_pings_ms: u64,
+    /// the endpoint's application queues this many datagrams at once (half an interval after the
+    /// start) on a link that takes `link.latency_ms` per message and has room for `link.window`:
+    /// the Sink is busy for many keepalive periods. A due Ping may wait for the messages the Sink
+    /// has already taken, never for the queue behind them.
+    #[serde(default)]
+    pub backlog: usize,
 }
 
 pub fn run_c16(plan: &C16Plan, sched: &Sched, record: bool) -> Outcome {
@@ -1013,6 +1019,17 @@ async fn run_c16_async(plan: C16Plan, sched: Sched, record: bool) -> Outcome {
             for _ in 0..n.min(5000) {
                 tokio::time::sleep(Duration::from_millis(every)).await;
                 raw.borrow_mut().send_msg(penguin_mux::ws::Message::Ping);
+            }
+        });
+    }
+    if plan.backlog > 0 {
+        let (m, n, after) = (s.mux.clone(), plan.backlog, plan.start_delay_ms + plan.interval_ms / 2);
+        s.sim.spawn("burst", CLS_OTHER, async move {
+            tokio::time::sleep(Duration::from_millis(after)).await;
+            for k in 0..n {
+                if m.send_datagram(penguin_mux::Datagram { flow_id: k as u32, target_host: bytes::Bytes::from_static(b"burst"), target_port: 9, data: bytes::Bytes::from(vec![k as u8; 24]) }).await.is_err() {
+                    break;
+                }
             }
         });
     }
@@ -1090,10 +1107,20 @@ async fn run_c16_async(plan: C16Plan, sched: Sched, record: bool) -> Outcome {
         return o;
     }
     // ---- a ping is sent every I (exact virtual time)
+    // (with a busy Sink: no earlier than its tick and no later than the messages the Sink had
+    // already taken need: room for `window` messages plus the one on its way, `latency` ms each)
+    let slack = if plan.backlog > 0 { ms((plan.link.window.min(8) as u64 + 2) * plan.link.latency_ms + 1) } else { Duration::ZERO };
     for (k, (_, t)) in pings.iter().enumerate() {
-        if *t != d0 + ms(i_ms * k as u64) {
-            o.violate("C16:ping-schedule", format!("ping {k} was sent at {t:?}, expected {:?}; {desc}", d0 + ms(i_ms * k as u64)));
+        let due = d0 + ms(i_ms * k as u64);
+        if *t < due || *t > due + slack {
+            o.violate("C16:ping-schedule", format!("ping {k} was sent at {t:?}, expected {due:?}{}; {desc}", if plan.backlog > 0 { format!(" (+ at most {slack:?} for what the busy Sink had already taken)") } else { String::new() }));
             break;
+        }
+    }
+    if plan.backlog > 0 {
+        let burst_ms = l.evs.iter().filter(|e| e.stage == Stage::Sent && e.from == 0 && matches!(&*e.w, Wire::Frame(RFrame::Datagram { .. }))).map(|e| e.t).max().unwrap_or_default().saturating_sub(d0 + ms(i_ms / 2));
+        if burst_ms >= ms(2 * t_ms.max(i_ms)) {
+            o.probe("sink-busy-for-more-than-two-timeouts", 1);
         }
     }
     let (ti, tt) = (ms(i_ms), ms(t_ms));
